@@ -1,0 +1,19 @@
+//go:build verif
+
+// Contracts for the relayer genesis (property C16), comment-only.
+package relayer
+
+// InitGenesis establishes the STORED part of the group invariant used by (Keeper).EndBlocker: the four singletons
+// exist afterwards (a rejected genesis panics = no post-state), the stored relayer record is the genesis one, and
+// the queue it builds is non-nil. What it checks / does not check w.r.t. the rest of the invariant is analysed in
+// /var/tmp/ag_rel/NOTES.md section 4 (findings G1-G3).
+//@ func InitGenesis
+//@ property C16
+//@ ensures stored: has(st.relayer.Relayer) && has(st.relayer.Params) && has(st.relayer.Queue) && has(st.relayer.Randao)
+//@ ensures relayer_as_given: genState.Relayer != nil && st.relayer.Relayer == *genState.Relayer && st.relayer.Params == genState.Params
+//@ ensures period: st.relayer.Params.ElectingPeriod != 0
+//@ modifies st.relayer.Relayer, st.relayer.Params, st.relayer.Queue, st.relayer.Randao, st.relayer.Sequence, st.relayer.Voters, st.relayer.Pubkeys
+//@ loop 0 invariant true
+//@ loop 1 invariant true
+//@ loop 2 invariant true
+//@ loop 3 invariant true
